@@ -652,6 +652,10 @@ def run_traced(cfg, max_batches=400):
                 tr.stats['resumes'] += 1
                 tr.seen_explored = bool(s.explored)
                 tr.snapshot(s, 'resume')
+                if any(k in tr.fails for k in ('C01', 'C05', 'C09')):
+                    # the resumed object is already wrong (a direct predicate failed on it): do not run it further, it may never return
+                    done = True
+                    break
             while toggle_at and toggle_at[0] <= k:
                 toggle_at.pop(0)
                 v = not s._discard_exploration
